@@ -7,10 +7,33 @@ import (
 )
 
 var _ = time.Second
-var _ = instr.PkgRules{}
 
 func configs() []cfg {
+	rtmpI := []instr.PkgRules{{Pkg: "rtmp", SyncSwap: true}, {Pkg: "amf0", SyncSwap: true}}
+	wsI := []instr.PkgRules{{Pkg: "websocket", SyncSwap: true, ChanLock: []string{"mu"}, Export: "websocket/verif_export.go"}}
 	return []cfg{
+		{id: "C01", pkg: "checks/c01", level: "model_checking", workers: 16},
+		{id: "C02", pkg: "checks/c02", level: "model_checking", workers: 16},
+		{id: "C03", pkg: "checks/c03", level: "model_checking", workers: 16},
+		{id: "C04", pkg: "checks/c04", level: "model_checking", workers: 8, instr: rtmpI, race: true},
+		{id: "C05", pkg: "checks/c05", level: "exploration", workers: 16},
+		{id: "C06", pkg: "checks/c06", level: "exploration", workers: 16},
+		{id: "C07", pkg: "checks/c07", level: "exploration", workers: 16},
+		{id: "C08", pkg: "checks/c08", level: "fault_enumeration", workers: 16},
+		{id: "C09", pkg: "checks/c09", level: "exploration", workers: 16},
+		{id: "C10", pkg: "checks/c10", level: "exploration", workers: 16},
 		{id: "C11", pkg: "checks/c11", level: "exploration", workers: 16},
+		{id: "C12", pkg: "checks/c12", level: "exploration", workers: 16},
+		{id: "C13", pkg: "checks/c13", level: "model_checking", workers: 16, instr: wsI},
+		{id: "C14", pkg: "checks/c14", level: "model_checking", workers: 16, instr: wsI},
+		{id: "C15", pkg: "checks/c15", level: "model_checking", workers: 16, instr: wsI, race: true},
+		{id: "C16", pkg: "checks/c16", level: "fault_enumeration", workers: 16,
+			instr: []instr.PkgRules{{Pkg: "https/acme", Export: "acme/verif_export.go"}}},
+		{id: "C17", pkg: "checks/c17", level: "exploration", workers: 16},
+		{id: "C18", pkg: "checks/c18", level: "model_checking", workers: 8, race: true,
+			instr: []instr.PkgRules{{Pkg: "logger", SyncSwap: true, Globals: []string{"gCid"}}}},
+		{id: "C19", pkg: "checks/c19", level: "exploration", workers: 16},
+		{id: "C20", pkg: "checks/c20", level: "model_checking", workers: 16,
+			instr: []instr.PkgRules{{Pkg: "kxps", SyncSwap: false, Time: true}}},
 	}
 }
